@@ -1345,7 +1345,7 @@ pub fn run_into(ctx: &Ctx, property: &'static str, mut report: Report) -> Report
     return report;
   }
 
-  let budget_total: u64 = if ctx.thorough() { 3600 } else { 40 };
+  let budget_total: u64 = if ctx.thorough() { 900 } else { 40 };
   let mut all_states: BTreeSet<String> = BTreeSet::new();
   let mut exhaustive = true;
   let mut traces = 0;
